@@ -35,6 +35,18 @@ def same(a, b):
     return ea == eb
 
 
+def battery_replay(*scenarios):
+    """native replay = search a failing input in the concrete battery (real package, beartype on)"""
+    from .native import run_native
+
+    last = None
+    for sc in scenarios + ("generic",):
+        last = run_native("gfi_battery", sc)
+        if last.get("confirmed"):
+            return last
+    return last
+
+
 def args_recorded(tr_args, args, kwargs):
     """the trace stores (args, kwargs) in the standard format, element-wise identical"""
     if not (isinstance(tr_args, tuple) and len(tr_args) == 2 and isinstance(tr_args[1], dict)):
@@ -46,6 +58,9 @@ def args_recorded(tr_args, args, kwargs):
 
 
 class _DistBase(Contract):
+    def replay(self, case, clause, model, path):
+        return battery_replay()
+
     cases = ["args_only", "with_kwargs"]
 
     def mk(self, case):
@@ -219,6 +234,9 @@ class DistRegenerate(_DistBase):
 
 
 class _HandlerBase(Contract):
+    def replay(self, case, clause, model, path):
+        return battery_replay()
+
     cases = ["args_only", "with_kwargs", "kwargs_None"]
 
     def site(self, case):
@@ -515,6 +533,9 @@ class RegenerateStep(_EditBase):
 
 
 class _FnOp(Contract):
+    def replay(self, case, clause, model, path):
+        return battery_replay()
+
     cases = ["empty_stack:args_only", "empty_stack:with_kwargs", "nested_stack:args_only"]
     handler_cls = None
 
